@@ -41,6 +41,8 @@ type Resp struct {
 	Header map[string]string `json:"header,omitempty"`
 	Body   string            `json:"body,omitempty"`
 	Err    bool              `json:"err,omitempty"` // transport error instead of a response
+	// CutAt > 0: the connection breaks after that many body bytes (the read returns an error)
+	CutAt int `json:"cut_at,omitempty"`
 }
 
 // Page is the behaviour of one URL: Script[i] answers attempt i, the last entry repeats.
@@ -61,6 +63,9 @@ type Fetch struct {
 	VStart  time.Duration
 	Accept  bool // the real discard hook chain accepts the response
 	Written int  // scheduler step at which the fake WARC writer "wrote" it (-1 = not written)
+	// BodyLen is what the origin sent, BodyRead what the crawler had read when it closed the body:
+	// the WARC library records the bytes that crossed the connection, so an unread tail is lost.
+	BodyLen, BodyRead int
 }
 
 // Msg is an item seen on the finish or produce channel.
@@ -365,6 +370,10 @@ func (t *transport) RoundTrip(req *http.Request) (*http.Response, error) {
 		return nil, fmt.Errorf("fake transport: connection refused")
 	}
 	f.Status = r.Status
+	f.BodyLen = len(r.Body)
+	if r.CutAt > 0 && r.CutAt < f.BodyLen {
+		f.BodyLen = r.CutAt
+	}
 	h := http.Header{}
 	for k, v := range r.Header {
 		h.Set(k, v)
@@ -383,8 +392,30 @@ func (t *transport) RoundTrip(req *http.Request) (*http.Response, error) {
 	w.mu.Lock()
 	w.BodiesOpen++
 	w.mu.Unlock()
-	resp.Body = &body{r: strings.NewReader(r.Body), w: w, f: f, fb: fb}
+	var rd io.Reader = strings.NewReader(r.Body)
+	if r.CutAt > 0 {
+		rd = &cutReader{r: rd, left: r.CutAt}
+	}
+	resp.Body = &body{r: rd, w: w, f: f, fb: fb}
 	return resp, nil
+}
+
+// cutReader delivers `left` bytes and then fails like a reset connection.
+type cutReader struct {
+	r    io.Reader
+	left int
+}
+
+func (c *cutReader) Read(p []byte) (int, error) {
+	if c.left <= 0 {
+		return 0, fmt.Errorf("read tcp: connection reset by peer")
+	}
+	if len(p) > c.left {
+		p = p[:c.left]
+	}
+	n, err := c.r.Read(p)
+	c.left -= n
+	return n, err
 }
 
 func dyn(w *World, u string, n int) (Resp, bool) {
@@ -405,7 +436,11 @@ type body struct {
 	closed bool
 }
 
-func (b *body) Read(p []byte) (int, error) { return b.r.Read(p) }
+func (b *body) Read(p []byte) (int, error) {
+	n, err := b.r.Read(p)
+	b.f.BodyRead += n
+	return n, err
+}
 
 func (b *body) Close() error {
 	if b.closed {
